@@ -26,15 +26,15 @@ func init() {
 // callee (package path suffix "." name, or "iface:" + interface method) -> why it does not allocate
 var r17NoAlloc = func() map[string]string {
 	m := map[string]string{
-		"buffer.New":               "default buffer when the caller passes none: construction path, not steady state (on R17.2's allow-list)",
-		"errors.New":               "error construction: allocates, on failure paths only (judged by R17.1/R17.2)",
-		"fmt.Errorf":               "error construction: allocates, on failure paths only (judged by R17.1/R17.2)",
-		"sort.Search":              "a plain binary-search loop calling the predicate; the predicate closure does not escape (escape diagnostics)",
+		"buffer.New":                "default buffer when the caller passes none: construction path, not steady state (on R17.2's allow-list)",
+		"errors.New":                "error construction: allocates, on failure paths only (judged by R17.1/R17.2)",
+		"fmt.Errorf":                "error construction: allocates, on failure paths only (judged by R17.1/R17.2)",
+		"sort.Search":               "a plain binary-search loop calling the predicate; the predicate closure does not escape (escape diagnostics)",
 		"iface:buffer.Buffer.Bytes": "returns the buffer's current slice",
 		"iface:buffer.Buffer.Len":   "returns a length",
 		"iface:buffer.Buffer.Grow":  "amortised growth of the caller's reused buffer: no allocation once the buffer has reached its steady-state capacity",
 		"iface:buffer.Buffer.Write": "copy into the reused buffer (amortised growth, as Grow)",
-		"math.IsInf":               "pure arithmetic",
+		"math.IsInf":                "pure arithmetic",
 	}
 	for _, n := range []string{"Float32bits", "Float32frombits", "Float64bits", "Float64frombits"} {
 		m["math."+n] = "bit reinterpretation"
